@@ -95,6 +95,9 @@ pub struct MapWorld<T: El> {
     pub lazy_empty_ok: bool,
     pub ops_done: u32,
     pub chain_info: chain::ChainInfo,
+    /// false after a deliberate logic error (an element stored under a wrong hash): from then on
+    /// only the safety oracles run (ledger, canaries, cursor agreement, len == iterated entries)
+    pub model_on: bool,
 }
 
 const VMOD: u32 = 3;
@@ -112,7 +115,7 @@ impl<T: El> MapWorld<T> {
         if m.capacity() < cap0 {
             vbail!("contract", "with_capacity({}) gives capacity {}", cap0, m.capacity());
         }
-        Ok(MapWorld { m, r: BTreeMap::new(), next_key: 0, cfg: cfg.clone(), st: None, leaky: false, deadline: None, lazy_empty_ok: false, ops_done: 0, chain_info: Default::default() })
+        Ok(MapWorld { m, r: BTreeMap::new(), next_key: 0, cfg: cfg.clone(), st: None, leaky: false, deadline: None, lazy_empty_ok: false, ops_done: 0, chain_info: Default::default(), model_on: true })
     }
 
     #[inline]
@@ -203,6 +206,7 @@ impl<T: El> MapWorld<T> {
         h.u64(self.leaky as u64);
         h.u64(self.deadline.map_or(u64::MAX, |d| d as u64));
         h.u64(self.lazy_empty_ok as u64);
+        h.u64(self.model_on as u64);
         h.finish()
     }
 
@@ -221,6 +225,9 @@ impl<T: El> MapWorld<T> {
 
     // -----------------------------------------------------------------------------------------
     pub fn audit(&mut self, full: bool) -> VResult<()> {
+        if !self.model_on {
+            return self.safety_audit();
+        }
         let m = &self.m;
         vcheck_eq!("len", m.len(), self.r.len());
         vcheck_eq!("is_empty", m.is_empty(), self.r.is_empty());
@@ -284,6 +291,30 @@ impl<T: El> MapWorld<T> {
         Ok(())
     }
 
+    /// After a deliberate logic error: memory safety only.
+    fn safety_audit(&mut self) -> VResult<()> {
+        if let Some(f) = elem::ledger_fault() {
+            vbail!("ledger", "{}", f);
+        }
+        let n = harness(|| self.m.iter().map(|(k, v)| (k.id(), v.id())).count());
+        if n != self.m.len() {
+            vbail!("audit", "after a logic error: len() = {} but iter() yields {} entries", self.m.len(), n);
+        }
+        if T::TRACKED {
+            let mut objs: Vec<u64> = harness(|| self.m.iter().flat_map(|(k, v)| [k.obj(), v.obj()]).collect());
+            objs.sort();
+            for w in objs.windows(2) {
+                if w[0] == w[1] {
+                    vbail!("ledger", "object {} stored twice", w[0]);
+                }
+            }
+        }
+        if let Some(f) = elem::ledger_fault() {
+            vbail!("ledger", "{}", f);
+        }
+        self.check_cursor()
+    }
+
     /// C05: the cached iterator agrees exactly with the old table's contents.
     pub fn check_cursor(&self) -> VResult<()> {
         let s = self.m.verif_stats();
@@ -315,6 +346,22 @@ impl<T: El> MapWorld<T> {
 
     // -----------------------------------------------------------------------------------------
     pub fn apply(&mut self, op: Op) -> VResult<u64> {
+        if !self.model_on {
+            // results are unspecified after a logic error (they may even be panics); only safety counts
+            self.st = None;
+            self.ops_done += 1;
+            let _ = catch(|| self.do_op(op));
+            if let Some(f) = elem::ledger_fault() {
+                vbail!("ledger", "{}", f);
+            }
+            // best-effort re-synchronisation so that later ops are resolved on something sensible
+            self.r = harness(|| self.m.iter().map(|(k, v)| (k.id(), v.id())).collect());
+            if let Some(&mx) = self.r.keys().max() {
+                self.note_key(mx);
+            }
+            self.leaky = true;
+            return Ok(0);
+        }
         self.st = None;
         self.ops_done += 1;
         let pre = if self.cfg.flags.c02 || self.cfg.flags.c03 { Some(self.pre_info(op)) } else { None };
@@ -663,7 +710,27 @@ impl<T: El> MapWorld<T> {
                 self.st = None;
             }
             OpK::IterCheck => self.op_iter_check(op, &mut obs)?,
-            OpK::RawInsertWrongHash | OpK::SInsert | OpK::SReplace | OpK::SRemove | OpK::STake | OpK::SGet | OpK::SContains | OpK::SGetOrInsert | OpK::SGetOrInsertOwned | OpK::SGetOrInsertWith => {
+            OpK::RawInsertWrongHash => {
+                // a logic error that must stay memory-safe: store (k, v) under a hash that is not k's
+                let right = self.m.hasher().hash_of(if T::ZST { 0 } else { k as u64 });
+                let wrong = match op.arg {
+                    0 => 0,
+                    1 => self.m.hasher().hash_of(k as u64 + 1),
+                    _ => !right,
+                };
+                let (kk, vv) = (Self::mkk(k), Self::mkv(0));
+                self.call(|m| {
+                    if let griddle::hash_map::RawEntryMut::Vacant(v) = m.raw_entry_mut().from_hash(wrong, |_| false) {
+                        v.insert_hashed_nocheck(wrong, kk, vv);
+                    }
+                });
+                self.note_key(k);
+                self.model_on = false;
+                self.leaky = true;
+                self.st = None;
+                self.r = harness(|| self.m.iter().map(|(k, v)| (k.id(), v.id())).collect());
+            }
+            OpK::SInsert | OpK::SReplace | OpK::SRemove | OpK::STake | OpK::SGet | OpK::SContains | OpK::SGetOrInsert | OpK::SGetOrInsertOwned | OpK::SGetOrInsertWith => {
                 vbail!("machinery", "op {} is not a map op", op)
             }
         }
